@@ -45,6 +45,11 @@ CHECKS = {
    text="TLC enumerates the shape model of the decoders' guards from the specification's own tables (every application-layer CID x direction x length 0..size+1 with every status-dependent size, every MAC-command CID x direction x 0..6 bytes, CFList/join payload lengths around their fixed sizes, frame shapes around FOptsLen/FPort/MType guards) and checks the specification's decoders are total on them; every shape, plus seeded uniform strings of 0..512 bytes, textual/JSON samples and structure-aware mutations of valid frames, is fed to ~44 real entry points (frame decode binary/base64, decode and decrypt-then-decode with random keys, join-accept decrypt, CFList, MAC commands, four application-layer stream decoders, identifier/backend text and JSON types, key-envelope unwrap) under observe(): outcome must be value or error, the input buffer unchanged, no call exceeding the deadline.",
    note="Trusted: TLC, harness observe(). Totality only; linear time is a per-call deadline; no coverage-guided fuzzing.",
    ref="3/C09"),
+ "C10": dict(
+   technique="Ownership state machine and RegistryConc lock model in TLA+, exhaustively explored by TLC; model behaviours replayed on real buffers and - with a blocking verification hook as scheduler gate - on the real registry; stateful TLC validation of recorded buffer/value histories, hook-event orders and concurrent results",
+   text="TLC explores every operation sequence (<=3/4 ops) of the ownership model over position classes (frame conditions as action properties: overwrite/encode/inspect never change a decoded value, in-place encryption changes only the given cells) and every interleaving of decoders and registrars under the readers-writer lock (LockDiscipline, Linearizable); ownership behaviours and seeded histories run on real backing arrays observed over their full capacity with the model stepped alongside (decode = spec Decode, encode = spec Encode, in-place ciphertext = spec keystream); decode-into-used vs fresh for 29 MAC payloads, CFList, frames, all application-layer payloads and Commands; band instance independence; model interleavings are replayed on the real registry through gated hooks (results must equal the model's), free-running goroutines are recorded (lock observed held at every map access, every lookup linearizable) and concurrent MIC/encrypt/decode results are validated against the sequential specification.",
+   note="Trusted: TLC, Frame/Crypto specs, hooks (TryLock probes), harness. Generic Go-memory-model race freedom beyond what hooks/results expose is not claimed.",
+   ref="3/C10"),
  "C11": dict(
    technique="NetID/DevAddr addressing rules on bit sequences in TLA+ (NetID.tla); algebraic identities model-checked by TLC; recorded SetAddrPrefix/IsNetID/NwkID/NetIDType/ID results and identifier representations validated by TLC (all 2^24 NetIDs in the thorough tier)",
    text="TLC checks the identities IsNetID(SetPrefix(a,n),n), IsNetID(a,n) <=> SetPrefix(a,n)=a, NwkAddr untouched, type and NwkID preserved, idempotence on the specification for all 8 types x an ID lattice x 4 address patterns; the real SetAddrPrefix, IsNetID (on the input, the result and a one-bit neighbour), NwkID, NetIDType, NetID.Type/ID are recorded for structured+random NetIDs (quick) or all 2^24 NetIDs (thorough) and compared bit for bit with the specification; text/binary/sql representations of EUI64, DevAddr, NetID, AES128Key are checked incl. 0x prefix, upper case and nine kinds of malformed/wrong-length input.",
